@@ -133,8 +133,10 @@ class TlvStream:
                 # the generic wrapper impl (not monomorphised in MIR): Ok(RequiredWrapper(Some(read::<T>()?)))
                 ty = mw.group(1)
                 wrap = lambda v: X.Adt('RequiredWrapper', {0: X.En('Option', 1, {1: [v]})})
-            if re.match(r'(?:util::ser::)?(WithoutLength|Option)<', ty) or ty == 'BigSize':
+            if ty == 'BigSize':
                 return NotImplemented
+            if re.match(r'(?:util::ser::)?(WithoutLength|Option)<', ty) and not any(norm_ty(r_['ty']) == norm_ty(ty) for r_ in recs):
+                return NotImplemented          # a wrapper whose own impl is crate code: let it run
             if not self.cur:
                 return NotImplemented
             cur = self.cur[-1]
@@ -158,3 +160,29 @@ class TlvStream:
         for rx, h in reversed(models):
             E.models.insert(0, (re.compile(rx), h))
         E.unwind = max(E.unwind, n + 2)
+
+
+def find_fn(S, rx):
+    ix = S.mir()
+    c = [i for i in range(len(ix.offsets)) if re.search(rx, ix.offsets[i][0])]
+    if len(c) != 1:
+        raise X.Unsupported('%d functions match %s' % (len(c), rx))
+    return ix.get(c[0])
+
+
+def roundtrip(S, D, E, mem, fw, fr, self_ref, extra_writer_args=()):
+    """write `*self_ref` with fw, read it back with fr over the abstract stream.
+    returns (stream, writer returned Ok, reader returned Ok, value read back)"""
+    T = TlvStream(E, D)
+    T.install_writer()
+    wcell = E.new_cell()
+    mem[wcell] = X.Opaque('writer')
+    wr = S.call(E, fw, [self_ref] + list(extra_writer_args) + [X.Ref(wcell)], mem)
+    w_ok = z3.And(S.ret_guard, X.zint(wr.d) == 0)
+    T.finish_writer()
+    T.install_reader()
+    rcell = E.new_cell()
+    mem[rcell] = X.Opaque('reader')
+    rr = S.call(E, fr, [X.Ref(rcell)], mem)
+    r_ok = z3.And(S.ret_guard, X.zint(rr.d) == 0)
+    return T, w_ok, r_ok, rr.vs[0][0]
